@@ -32,6 +32,23 @@ Theorem C05_waveform_absent : forall m f c, ~ In c (p_sent f) -> waveform_at m f
 Proof. exact waveform_absent_lemma. Qed.
 Print Assumptions C05_waveform_absent.
 
+(* the same on the INPUT bytes: for an accepted payload l and a sent channel c (the k-th), the bytes of l at offset
+   52 + k * bytes_per_channel are exactly [readout index of c; count; the samples waveform_at returns; zero padding
+   iff odd], with bytes_per_channel = 4 + 2 * requested_samples (+ 2 iff odd) *)
+Theorem C05_waveform_bytes : forall macs m l f c, bytes l -> pwb_decode macs m l = Ok f -> In c (p_sent f) ->
+  exists k w, nth_error (p_sent f) (N.to_nat k) = Some c /\ waveform_at m f c = Ok (Some w) /\ lenN w = p_req f /\
+    subN l (52 + bpc_of (p_req f) * k) (bpc_of (p_req f)) = block_bytes (p_req f) c w.
+Proof. exact waveform_bytes_lemma. Qed.
+Print Assumptions C05_waveform_bytes.
+
+(* the sent and over-threshold channel lists of an accepted payload are the set bits of its two masks (bytes 24-33
+   and 34-43) in ascending order, bit i <-> readout index i + 1, and bit 79 of both masks is clear *)
+Theorem C05_channel_lists : forall macs m l f, bytes l -> pwb_decode macs m l = Ok f ->
+  p_sent f = mask_chan_list (le_val (subN l 24 10)) /\ p_over f = mask_chan_list (le_val (subN l 34 10)) /\
+  N.testbit (le_val (subN l 24 10)) 79 = false /\ N.testbit (le_val (subN l 34 10)) 79 = false.
+Proof. exact channel_lists_lemma. Qed.
+Print Assumptions C05_channel_lists.
+
 (* ---- the mask loop (padwing.rs:1390-1394) ---- *)
 (* For every u128 and both overflow modes the leading_zeros loop with fuel 128 terminates without panic and pushes
    exactly the set bits, highest first (the code then reverses: ascending).  [mask_bits num n] is
